@@ -118,12 +118,12 @@ def run(ctx):
             else:
                 ctx.ob("R-PICKLE", "C12.1", base_r, f"dropped sampler attribute `{a}` is re-attached by resume_from_pickled_sampler", a in stored, f"stores on `{recv}`: {sorted(stored)}")
     # resumed flag and model re-attachment happen before the subclass hooks use the model
-    for cq, hook in ((tables.NS, "obj._flow_proposal.resume"), (tables.NS, "obj._uninformed_proposal.resume"), (tables.INS, "obj.proposal.resume")):
+    for cq, hook in ((tables.NS, "_flow_proposal.resume"), (tables.NS, "_uninformed_proposal.resume"), (tables.INS, "proposal.resume")):
         f = ctx.fn(cq + ".resume_from_pickled_sampler")
         fa = FA(f)
         sup = fa.find_expr(lambda e: isinstance(e, ast.Call) and isinstance(e.func, ast.Attribute) and e.func.attr == "resume_from_pickled_sampler")
-        hk = fa.find_calls(hook)
-        ctx.ob("R-ORDER", "C12.1", f, f"{hook}(model, ...) runs after the base class re-attached the model, on every path", len(sup) == 1 and len(hk) == 1 and fa.dominates(sup[0][0], hk[0][0]) and fa.on_every_normal_path(hk[0][0]) and src(hk[0][1].args[0]) == "model", f"`{src(hk[0][1]) if hk else None}`")
+        hk = fa.find_expr(lambda e, hook=hook: isinstance(e, ast.Call) and isinstance(e.func, ast.Attribute) and isinstance(e.func.value, ast.Attribute) and isinstance(e.func.value.value, ast.Name) and f"{e.func.value.attr}.{e.func.attr}" == hook)
+        ctx.ob("R-ORDER", "C12.1", f, f"<sampler>.{hook}(model, ...) runs after the base class re-attached the model, on every path", len(sup) == 1 and len(hk) == 1 and fa.dominates(sup[0][0], hk[0][0]) and fa.on_every_normal_path(hk[0][0]) and src(hk[0][1].args[0]) == "model", f"`{src(hk[0][1]) if hk else None}`")
 
     # ---- proposals / flow models: must-write-before-read on the receiver -------
     def check_receiver(cq, entry, subclasses=True):
@@ -183,12 +183,12 @@ def run(ctx):
     os_d, os_n, os_a, _ = effects[tables.OS_]
     ir = ctx.fn(tables.INS + ".resume_from_pickled_sampler")
     ira = FA(ir)
-    hk = ira.find_calls("obj.proposal.resume")
-    for store in ("obj.training_samples.log_q", "obj.iid_samples.log_q"):
-        st = ira.find(lambda s: isinstance(s, ast.Assign) and any(store in src(t) for t in s.targets))
+    hk = ira.find_expr(lambda e: isinstance(e, ast.Call) and isinstance(e.func, ast.Attribute) and e.func.attr == "resume" and isinstance(e.func.value, ast.Attribute) and e.func.value.attr == "proposal")
+    for store in ("training_samples.log_q", "iid_samples.log_q"):
+        st = ira.find(lambda s: isinstance(s, ast.Assign) and any(src(x).endswith("." + store) for t in s.targets for x in ast.walk(t) if isinstance(x, ast.Attribute)))
         ok = len(st) == 1 and hk and ira.dominates(hk[0][0], st[0]) and "compute_meta_proposal_samples" in src(ira.stmt(st[0]).value)
         guards = [src(e) for e, t in (ira.guards(st[0]) if st else []) if t is True]
-        ctx.ob("R-PICKLE", "C12.1", ir, f"`{store}` (None in the pickle unless save_log_q) is recomputed from the re-loaded proposal when it is None", ok and any(store + " is None" in g_ for g_ in guards), f"guards {guards}")
+        ctx.ob("R-PICKLE", "C12.1", ir, f"`<sampler>.{store}` (None in the pickle unless save_log_q) is recomputed from the re-loaded proposal when it is None", ok and any(g_.endswith(store + " is None") for g_ in guards), f"guards {guards}")
     ctx.ob("R-PICKLE", "C12.1", tables.OS_ + ".__getstate__", "log_q is pickled iff save_log_q, else None (never silently dropped)", "log_q" in os_d and ("log_q" in os_a or "log_q" in os_n) and _key_on_every_path(prog.cls(tables.OS_).methods["__getstate__"], "log_q"), f"dropped {sorted(os_d)} nulled {os_n} added {sorted(os_a)}")
     # Model is never taken from the pickle
     for cq in (tables.BASE, tables.INS, tables.PROPOSAL, tables.FP, tables.IFP):
@@ -268,14 +268,14 @@ def run(ctx):
     for r in roots:
         reach |= {r} | nx.descendants(g, r)
     fns = [prog.functions[q] for q in sorted(reach) if q in prog.functions]
-    from .C20 import UNDEF_REVIEWED
+    from .C20 import undef_reviewed
 
     n_un = 0
     for f, name, x in undef.scan(prog, fns):
-        if (f.qual, name) in UNDEF_REVIEWED:
+        if undef_reviewed(f, name) is not None:
             continue
         n_un += 1
-        ctx.ob("R-UNDEF", "C12.4", f, f"local `{name}` is bound on every path of the resume call tree", False, f"`{name}` read at {f.loc(x)} on a path where it is unbound", node=x)
+        ctx.ob("R-UNDEF", "C12.4", f, "every local is bound on every path of the resume call tree", False, f"`{name}` read at {f.loc(x)} on a path where it is unbound", node=x)
     ctx.ob("R-UNDEF", "C12.4", "nessai", "definite-assignment analysis over every function reachable from the resume entry points", True, f"{len(fns)} functions analysed, {n_un} reports")
     # every attribute read on a typed receiver in the resume call tree is defined (incl. pickle keys)
     from ..rules import attr as attr_rule
@@ -331,7 +331,7 @@ MUTANTS = [
     {"id": "previous-key-mismatch", "file": _INS, "old": '            state["_previous_likelihood_evaluations"] = d[\n                "model"\n            ].likelihood_evaluations', "new": '            state["_previous_evaluations"] = d[\n                "model"\n            ].likelihood_evaluations', "expect": "_previous_"},
     {"id": "log-q-silently-dropped", "file": _INS, "old": '        else:\n            state["log_q"] = None\n        return state', "new": "        return state", "expect": "log_q is pickled iff save_log_q"},
     {"id": "log-q-recomputed-before-flows-loaded", "file": _INS, "edits": [(_INS, "        obj.proposal.resume(model, flow_config, weights_path=weights_path)\n\n        if obj.training_samples.log_q is None:", "        if obj.training_samples.log_q is None:"), (_INS, '        logger.info("Finished resuming sampler")\n', '        obj.proposal.resume(model, flow_config, weights_path=weights_path)\n        logger.info("Finished resuming sampler")\n')], "expect": "log_q"},
-    {"id": "unbound-on-resume-path", "file": _FPF, "old": "                m = np.array(self.mask)\n            else:\n                m = self.mask\n", "new": "                m = np.array(self.mask)\n", "expect": "local `m`"},
+    {"id": "unbound-on-resume-path", "file": _FPF, "old": "                m = np.array(self.mask)\n            else:\n                m = self.mask\n", "new": "                m = np.array(self.mask)\n", "expect": "every local is bound"},
     {"id": "flow-pickled-with-proposal", "file": _FPF, "old": '        del state["flow"]\n', "new": "", "expect": "drops its FlowModel"},
     {"id": "setstate-forgets-iid", "file": _INS, "old": "        self.iid_samples = state[3]\n", "new": "", "expect": "__setstate__"},
 ]
